@@ -364,9 +364,11 @@ std::string handle(std::vector<std::string> const &t)
 }
 }
 
+#ifndef VERIF_NO_MAIN
 int main()
 {
   init();
   vh::op_budget() = 120;
   return vh::run(handle);
 }
+#endif
